@@ -329,6 +329,55 @@ def case_repeat_extreme(case):
     return {"v": v, "nt": True, "n": 3, "obs": {"first": "%s %s" % outs[0][:2]}}
 
 
+def case_cache_race(case):
+    """purity across PROCESSES that share a cache directory: solves E and J (same grid, domain, levels; other halo and tower)
+    in two forked workers, each with its own cache object on one directory, under every preemption-bounded interleaving of
+    their file operations; each answer, and the answer a later session gets, equals the solve run alone"""
+    from vf import cacherace
+
+    S = sl.solver()
+    reqs, expect = {}, {}
+    for name in case["solves"]:
+        kw = solve_args(name)
+        kw["meas_pt"] = tuple(float(t) for t in kw["meas_pt"])
+        reqs[name] = kw
+        _, c, f = S(**solve_args(name))
+        expect[name] = (np.asarray(c), np.asarray(f))
+    return cacherace.solver_pair(reqs, expect, 1e-12, "solves %s" % "+".join(case["solves"]))
+
+
+def case_repeat_interface(case):
+    """the same purity one level up: the configuration-driven single run (profiles generated from the forcing, then the solve)
+    repeated four times in one process with unrelated solves and profile requests in between is bit-identical every time -
+    for ordinary, exactly neutral (L = +-inf) and strongly stratified forcings"""
+    from bldfm.config_parser import parse_config_dict
+    from bldfm.interface import run_bldfm_single
+    from bldfm.pbl_model import vertical_profiles
+
+    S = sl.solver()
+    cfg = parse_config_dict({"domain": {"nx": 8, "ny": 6, "xmax": 80.0, "ymax": 90.0, "nz": 6, "modes": [8, 6], "halo": 13.0, "output_levels": [2, 6]},
+                             "towers": [{"name": "t", "lat": 0.0, "lon": 0.0, "z_m": 5.0}], "met": {"ustar": 0.35, "mol": case["mol"], "wind_speed": 3.0, "wind_dir": 215.0},
+                             "solver": {"footprint": case["footprint"], "precision": case["prec"]}})
+    cfg.towers[0].x, cfg.towers[0].y = 30.0, 45.0
+    outs = []
+    rng = np.random.default_rng(4)
+    for k in range(4):
+        r = run_bldfm_single(cfg, cfg.towers[0])
+        outs.append((np.asarray(r["conc"]).tobytes(), np.asarray(r["flx"]).tobytes(), np.asarray(r["grid"][2]).tobytes()))
+        # unrelated work in between (other shapes, other stabilities): whatever it leaves in memory must not matter
+        kw = solve_args(("A", "C", "D", "B")[k])
+        S(**kw)
+        vertical_profiles(3 + 5 * k, 2.0 + k, (1.0 + k, -2.0), ustar=0.2 + 0.1 * k, mol=(-5.0, 7.0, 1e9, -300.0)[k])
+        _ = rng.random((50 + 37 * k, 11)) * 1e300
+    v = []
+    for k in (1, 2, 3):
+        if outs[k] != outs[0]:
+            which = ["conc", "flx", "heights"][[a != b for a, b in zip(outs[k], outs[0])].index(True)]
+            v.append({"sub": "repeat-interface", "sig": "repeat-interface/%s" % ("neutral" if np.isinf(case["mol"]) else "stratified"), "msg": "run_bldfm_single repeated in one process (mol=%r, %s, %s precision): repetition %d differs from the first in %s" % (case["mol"], "footprint" if case["footprint"] else "dispersion", case["prec"], k + 1, which)})
+            break
+    return {"v": v, "nt": True, "n": 4}
+
+
 def case_reference(case):
     """every solve of the alphabet, alone, in a fresh one-thread process; written to case['path']"""
     out = {}
@@ -358,6 +407,13 @@ def case_history(case):
     hist = case["history"]
     _TOWER_TABLE.clear()
     env_note = errorpaths.prepare(case["env"]) if case.get("env") else None
+    if case.get("threads_first"):
+        # the threaded flavour of the kernels is really compiled and executed only if it is compiled FIRST (see vf/errorpaths.py)
+        import numba
+
+        numba.config.CACHE_DIR = case["numba_cache_dir"]
+        config.NUM_THREADS = case["threads_first"]
+        env_note = "numerical threads = %d from the first call on, threaded kernels compiled first" % case["threads_first"]
     if case.get("wisdom"):
         # the wisdom file a previous run would have left in the working directory: the repository's own copy if it
         # is there (it is git-ignored, so a bare checkout does not have it), else one exported by the reference stage
@@ -372,8 +428,8 @@ def case_history(case):
     v = []
     runs = []  # (name, threads, conc bytes, flx bytes, arrays, digest at return)
     sig_hist = "%s" % ("".join(o if len(o) == 1 else "(%s)" % o for o in hist))
-    if case.get("env"):
-        sig_hist = "[%s: %s] %s" % (case["env"], env_note, sig_hist)
+    if case.get("env") or case.get("threads_first"):
+        sig_hist = "[%s: %s] %s" % (case.get("env", "threads-first"), env_note, sig_hist)
     for pos, op in enumerate(hist):
         if op[0] == "T" and op[1:].isdigit():
             config.NUM_THREADS = int(op[1:])
@@ -492,9 +548,17 @@ def run(ctx):
     envh = [{"history": [s_, s_], "wisdom": False, "refdir": refdir, "env": e_} for e_ in errorpaths.ENVS for s_ in ("A", "B", "C", "D", "E")]
     core.run_forked(ctx, case_history, envh, sub="after a refused call / with an unreadable wisdom file")
     hist_count += len(envh)
+    shared_nc = os.path.join(ctx.tmp_root, "numba_cache_threads_first")
+    os.makedirs(shared_nc, exist_ok=True)
+    thh = [{"history": [s_, s_], "wisdom": False, "refdir": refdir, "threads_first": k_, "numba_cache_dir": shared_nc} for k_ in (2, 3, 8) for s_ in ("A", "B", "C", "E")]
+    core.run_forked(ctx, case_history, thh[:1], sub="numerical threads > 1 from the first call on (threaded kernels really compiled)", timeout=1800)
+    core.run_forked(ctx, case_history, thh[1:], sub="numerical threads > 1 from the first call on (threaded kernels really compiled)", timeout=1800)
+    hist_count += len(thh)
     ctx.run_cases(errorpaths.case_blocked_pyfftw, [{"blocked": "pyfftw"}], sub="pyfftw cannot be imported: refuse or be right", chunksize=1)
     core.run_forked(ctx, case_repeat_extreme, [{"scale": sc_, "bg": bg_, "prec": pr_, "levels": lv_} for sc_, bg_, pr_, lv_ in itertools.product((1e41, 1e300, 1e-320, 0.0), (0.0, 1e38), ("single", "double"), (4, [2, 4]))],
                     sub="extreme magnitudes repeated in one process")
+    core.run_forked(ctx, case_cache_race, [{"solves": ["E", "J"]}], sub="two processes sharing a cache directory (all interleavings, <= 2 preemptions)", nproc=4, timeout=1800)
+    core.run_forked(ctx, case_repeat_interface, [{"mol": m_, "footprint": f_, "prec": p_} for m_ in (float("inf"), float("-inf"), 1e9, -40.0, 15.0) for f_ in (True, False) for p_ in ("double", "single")], sub="configuration-driven run repeated in one process")
     ctx.run_cases(case_precision, [{"z0": z0, "footprint": fp, "levels": lv} for z0, fp, lv in itertools.product(SMOOTH_Z0, (False, True), (6, [2, 6, 9]))], sub="single vs double over surface regimes")
     nodedup = None
     if ctx.tier != "quick":
